@@ -949,6 +949,27 @@ EXCLUDED = {
 }
 
 
+# where a function has something to do: preferred start models / a prior step (used by the enumerated part of C06)
+PREFER = {}
+for _n in (
+    'evaluate_epsilon_gradient', 'evaluate_eta_gradient', 'evaluate_individual_prediction', 'evaluate_population_prediction',
+    'evaluate_weighted_residuals', 'evaluate_expression', 'calculate_epsilon_gradient_expression', 'calculate_eta_gradient_expression',
+    'get_individual_prediction_expression', 'get_observation_expression', 'get_population_prediction_expression',
+):
+    PREFER[_n] = dict(starts=('minimal_pred', 'linbase_pred'))
+PREFER['get_pd_parameters'] = dict(pre='set_direct_effect')
+PREFER['add_pd_iiv'] = dict(pre='set_direct_effect')
+PREFER['remove_lag_time'] = dict(pre='add_lag_time')
+PREFER['set_first_order_elimination'] = dict(pre='set_michaelis_menten_elimination')
+PREFER['remove_unused_parameters_and_rvs'] = dict(pre='add_population_parameter')
+PREFER['bump_model_number'] = dict(pre='set_name')
+PREFER['remove_peripheral_compartment'] = dict(pre='add_peripheral_compartment')
+PREFER['remove_bioavailability'] = dict(pre='add_bioavailability')
+PREFER['remove_iov'] = dict(pre='add_iov')
+PREFER['split_joint_distribution'] = dict(starts=('pheno_block', 'mox1'))
+PREFER['update_initial_individual_estimates'] = dict(starts=('pheno_etas', 'linbase_pred'))
+
+
 def names():
     _ensure()
     return sorted(TABLE)
